@@ -4,6 +4,8 @@ import (
 	"bytes"
 	"fmt"
 	"math/rand"
+	"sync"
+	"sync/atomic"
 
 	enc "github.com/named-data/ndnd/std/encoding"
 	"github.com/named-data/ndnd/std/engine/basic"
@@ -142,6 +144,59 @@ func c14Run(c *h.Ctx) {
 	}
 	// --- parsers never panic
 	c14Parsers(c, r)
+	// --- the same laws hold when names are hashed from several goroutines at once (tables are
+	// keyed by these hashes from forwarding threads, management and applications concurrently)
+	c14ConcurrentHash(c, r)
+}
+
+func c14ConcurrentHash(c *h.Ctx, r *rand.Rand) {
+	if !c.Case("concurrent-hash") {
+		return
+	}
+	c.Eval(1)
+	names := make([]enc.Name, 24)
+	for i := range names {
+		names[i] = gen.Name(r, 6, 12)
+		if len(names[i]) == 0 {
+			names[i] = gen.Name(r, 6, 12)
+		}
+	}
+	wantH := make([]uint64, len(names))
+	wantP := make([][]uint64, len(names))
+	for i, n := range names {
+		wantH[i] = n.Hash()
+		wantP[i] = n.PrefixHash()
+	}
+	var wg sync.WaitGroup
+	var bad atomic.Int64
+	var first atomic.Value
+	for g := 0; g < 8; g++ {
+		wg.Add(1)
+		go func(g int) {
+			defer wg.Done()
+			for k := 0; k < 4000; k++ {
+				i := (g*5 + k) % len(names)
+				n := names[i]
+				if n.Hash() != wantH[i] {
+					bad.Add(1)
+					first.CompareAndSwap(nil, "Hash of "+n.String())
+				}
+				ph := n.PrefixHash()
+				for j := range ph {
+					if j >= len(wantP[i]) || ph[j] != wantP[i][j] {
+						bad.Add(1)
+						first.CompareAndSwap(nil, "PrefixHash of "+n.String())
+						break
+					}
+				}
+			}
+		}(g)
+	}
+	wg.Wait()
+	c.Count("concurrent_hash_evaluations", 8*4000)
+	if bad.Load() > 0 {
+		c.Violation("C14:law:hash-equal:concurrent", "concurrent-hash", fmt.Sprintf("%d of 32000 hash evaluations made from 8 goroutines differ from the value the same name hashes to when hashed alone (first: %v)", bad.Load(), first.Load()), nil)
+	}
 }
 
 func c14Laws(c *h.Ctx, id string, a, b, d enc.Name) {
